@@ -99,6 +99,9 @@ pub struct Ctx {
     pub relay_dst: Option<Id>,
     /// identity may change (renewal on death, or change_identity)
     pub may_change_identity: bool,
+    /// recurring timers the operation itself re-arms (it consumed one of them):
+    /// [probe, announce, announce-down, gossip]
+    pub own_timers: [usize; 4],
 }
 
 impl Ctx {
@@ -112,6 +115,7 @@ impl Ctx {
             removes: None,
             relay_dst: None,
             may_change_identity: false,
+            own_timers: [0; 4],
         }
     }
 }
@@ -197,6 +201,55 @@ pub fn post_common(pre: &Snap, post: &Snap, f: &F, rt: &LogRt, cx: Ctx) {
     if cx.must_die {
         vassert!(died, "c10: on learning that its identity is Down the instance renews or becomes Defunct");
     }
+
+    // ---- C13: recurring timers and epochs -------------------------------------
+    let n_active = rt.count_note(Note::Active);
+    let bumps = rt.count_note(Note::Idle) + rt.count_note(Note::Defunct) + rt.count_note(Note::Rejoin(post.identity))
+        + (cx.resets as usize);
+    vassert!(post.token == pre.token.wrapping_add(bumps as u8),
+        "c13: the timer epoch advances exactly on Idle, Defunct and identity change/reuse");
+    let mut cnt = [0usize; 4];
+    let mut t = 0;
+    while t < NT {
+        if t < rt.nt {
+            if let Some((ev, _)) = &rt.timers[t] {
+                let tok = match ev {
+                    crate::Timer::ProbeRandomMember(k) => {
+                        cnt[0] += 1;
+                        Some(*k)
+                    }
+                    crate::Timer::PeriodicAnnounce(k) => {
+                        cnt[1] += 1;
+                        Some(*k)
+                    }
+                    crate::Timer::PeriodicAnnounceDown(k) => {
+                        cnt[2] += 1;
+                        Some(*k)
+                    }
+                    crate::Timer::PeriodicGossip(k) => {
+                        cnt[3] += 1;
+                        Some(*k)
+                    }
+                    crate::Timer::SendIndirectProbe { token, .. } => Some(*token),
+                    crate::Timer::ChangeSuspectToDown { token, .. } => Some(*token),
+                    crate::Timer::RemoveDown(_) => None,
+                };
+                if let Some(k) = tok {
+                    if bumps == 0 {
+                        vassert!(k == pre.token, "c13: timers are issued under the current epoch");
+                    }
+                    if c == 1 {
+                        vassert!(k == post.token, "c13: an instance that ends the step active issued its timers under the final epoch");
+                    }
+                }
+            }
+        }
+        t += 1;
+    }
+    vassert!(cnt[0] == cx.own_timers[0] + n_active, "c13: exactly one probe timer per Active notification (plus the one being re-armed)");
+    vassert!(cnt[1] == cx.own_timers[1] + if pre.cfg_periodic.0 { n_active } else { 0 }, "c13: exactly one announce timer per Active when enabled");
+    vassert!(cnt[2] == cx.own_timers[2] + if pre.cfg_periodic.1 { n_active } else { 0 }, "c13: exactly one announce-down timer per Active when enabled");
+    vassert!(cnt[3] == cx.own_timers[3] + if pre.cfg_periodic.2 { n_active } else { 0 }, "c13: exactly one gossip timer per Active when enabled");
 
     // ---- C09: identities only move forward --------------------------------
     let mut k = 0;
